@@ -706,6 +706,34 @@ func (c *SpecCtx) evalCall(x *ECall) *V {
 			v.F[k] = c.coerceTo(c.eval(x.Args[k+1]), st.Field(k).Type())
 		}
 		return v
+	case "toplevel":
+		// a separately allocated object (not a struct embedded in another object, not nil)
+		a := c.eval(x.Args[0])
+		return boolV(app(SBool, ">", a.T, intLit(0)))
+	case "isnumeric":
+		a := c.eval(x.Args[0])
+		dig := func(k int64) T {
+			return and(app(SBool, ">=", strAt(a.T, intLit(k)), intLit(48)), app(SBool, "<=", strAt(a.T, intLit(k)), intLit(57)))
+		}
+		return boolV(and(eq(strLen(a.T), intLit(3)), dig(0), dig(1), dig(2)))
+	case "addrof":
+		// addrof(x.f): the address of an embedded struct field (e.g. &s.ircPrefix)
+		se, ok := x.Args[0].(*ESel)
+		if !ok {
+			c.fail("addrof expects a field selector")
+		}
+		b := c.eval(se.X)
+		t, isPtr := derefType(b.Typ)
+		st := structOf(t)
+		if !isPtr || st == nil {
+			c.fail("addrof: base is not a pointer to a struct")
+		}
+		for k := 0; k < st.NumFields(); k++ {
+			if st.Field(k).Name() == se.F {
+				return &V{Typ: types.NewPointer(st.Field(k).Type()), T: u.emb(structKey(t), se.F, b.T)}
+			}
+		}
+		c.fail("addrof: no field %s", se.F)
 	case "samearray":
 		a, b := c.eval(x.Args[0]), c.eval(x.Args[1])
 		if a.Sl == nil || b.Sl == nil {
